@@ -1935,7 +1935,8 @@ func (d *Data) ScaleUpdating(scale uint8) bool {
 
 func (d *Data) AnyScaleUpdating() bool {
 	d.updateMu.RLock()
-	for scale := uint8(0); scale < d.MaxDownresLevel; scale++ {
+	// scales being updated are 1..MaxDownresLevel (see downres.NewMutation); d.updates has MaxDownresLevel+1 entries
+	for scale := 0; scale <= int(d.MaxDownresLevel) && scale < len(d.updates); scale++ {
 		if d.updates[scale] > 0 {
 			d.updateMu.RUnlock()
 			return true
